@@ -61,6 +61,8 @@ class C16(F.Spec):
             yield self.gen_unpack(rng, i)
         for i in range(100 if tier == "quick" else 1500):
             yield self.gen_stream(rng, i)
+        for i in range(40 if tier == "quick" else 500):
+            yield self.gen_big(rng, i)
 
     def gen_unpack(self, rng, i):
         ops, tags = [], []
@@ -127,6 +129,40 @@ class C16(F.Spec):
         return F.Case("stream%d-%s" % (i, style), ops, {"tags": ["stream:" + style], "kind": "stream",
                                                         "pubs": [(q, t.hex(), p.hex(), pid) for q, t, p, pid in pubs]})
 
+    def gen_big(self, rng, i):
+        """packets around and above the size of the receive buffer (1024), in MSS-sized segments"""
+        pubs, stream = [], CONNACK
+        for k in range(rng.randint(0, 2)):
+            t = PREFIX + b"/channels/%d/set/on" % rng.randint(0, 9)
+            pl = rng.choice([b"1", b"0", b"x" * rng.randint(1, 60)])
+            pubs.append((0, t, pl, 1))
+            stream += publish(t, pl, 0, 1)
+        total = rng.choice([900, 1000, 1020, 1023, 1024, 1025, 1030, 1100, 1300, 2000])
+        t = b"t/" + bytes(rng.choice(b"abc") for _ in range(rng.randint(1, 20)))
+        qos = rng.choice([0, 0, 1])
+        hdr = 1 + 2 + 2 + len(t) + (2 if qos else 0)      # fixed header with a 2-byte remaining length
+        pl = bytes(rng.choice(b"pqrs") for _ in range(max(1, total - hdr)))
+        big = publish(t, pl, qos, 77)
+        pubs.append((qos, t, pl, 77))
+        stream += big
+        for k in range(rng.randint(0, 2)):
+            t2 = PREFIX + b"/channels/%d/set/on" % rng.randint(0, 9)
+            pubs.append((0, t2, b"1", 1))
+            stream += publish(t2, b"1", 0, 1)
+        segs, j = [], 0
+        while j < len(stream):
+            n = rng.choice([536, 600, 1000, 1460, 300, rng.randint(1, 700)])
+            segs.append(stream[j:j + n])
+            j += n
+        ops = ["start", "connected"]
+        for sgm in segs:
+            ops.append("seg " + sgm.hex())
+            if rng.random() < .3:
+                ops.append("adv 60")
+        ops += ["adv 200", "adv 35000", "adv 200"]
+        return F.Case("big%d-%d" % (i, len(big)), ops, {"tags": ["stream:big", "size:%d" % (len(big) // 100 * 100)], "kind": "big", "biglen": len(big), "noshrink": True,
+                                                       "pubs": [(q, tt.hex(), p.hex(), pid) for q, tt, p, pid in pubs]})
+
     def canon_impl(self, groups):
         out = []
         for g in groups:
@@ -164,7 +200,7 @@ class C16(F.Spec):
             return [F.Finding("crash", "implementation aborted (rc=%s): %s" % (rc, err[-900:]))]
         raw = case.meta.get("raw_impl") or []
         fs = []
-        if case.meta.get("kind") == "stream" or any(o.startswith("seg ") for o in case.ops):
+        if case.meta.get("kind") == "stream" or (case.meta.get("kind") is None and any(o.startswith("seg ") for o in case.ops)):
             got, errs, acks = [], [], []
             for g in raw:
                 for x in g:
@@ -196,6 +232,55 @@ class C16(F.Spec):
                         fs.append(F.Finding("missing-ack", "QoS 1 publish %d not acknowledged with PUBACK" % pid))
                     if q == 2 and (5, pid) not in acks:
                         fs.append(F.Finding("missing-ack", "QoS 2 publish %d not acknowledged with PUBREC" % pid))
+        if case.meta.get("kind") == "big":
+            got = []
+            for g in raw:
+                for x in g:
+                    if x.startswith("PUB "):
+                        p = x.split()
+                        tt = p[4] if p[4] != "-" else ""
+                        pp = p[5] if p[5] != "-" else ""
+                        if pp.startswith("HUGE"):
+                            fs.append(F.Finding("oversized-publish-delivered", "a payload of %s bytes was delivered" % pp))
+                            continue
+                        got.append((int(p[2]), tt, pp))
+                    elif x.startswith("SENT 0 "):
+                        b = bytes.fromhex(x.split()[2])
+                        j = 0
+                        while j < len(b):          # what is handed to TCP must be well-formed MQTT packets
+                            ty = b[j] >> 4
+                            if j + 1 >= len(b):
+                                fs.append(F.Finding("malformed-packet-sent", "truncated packet sent: %s" % b[j:j + 8].hex()))
+                                break
+                            ln, k, mul = 0, j + 1, 1
+                            while k < len(b):
+                                ln += (b[k] & 127) * mul
+                                mul *= 128
+                                k += 1
+                                if not b[k - 1] & 128:
+                                    break
+                            fixed = {4: 2, 5: 2, 6: 2, 7: 2, 12: 0, 14: 0}.get(ty)
+                            if ty not in (1, 3, 4, 5, 6, 7, 8, 10, 12, 14) or (fixed is not None and ln != fixed) or k + ln > len(b):
+                                fs.append(F.Finding("malformed-packet-sent", "not an MQTT packet the client may send: %s" % b[j:j + 8].hex()))
+                                break
+                            j = k + ln
+            want = [(q, t, p) for q, t, p, pid in case.meta.get("pubs", [])]
+            LIM = 1024
+            for q, t, p in got:
+                enc = 1 + 2 + 2 + len(t) // 2 + (2 if q else 0) + len(p) // 2
+                if enc > LIM:
+                    fs.append(F.Finding("oversized-publish-delivered", "a PUBLISH of %d bytes was delivered although the receive buffer holds %d" % (enc, LIM)))
+            # what is delivered is a prefix of what was sent (the oversized packet ends the stream)
+            if got != want[:len(got)]:
+                fs.append(F.Finding("publish-delivery", "callbacks %s are not a prefix of the PUBLISH packets sent" % [(q, t[-8:], p[:8]) for q, t, p in got][:4]))
+            small_before = []
+            for q, t, p, pid in case.meta.get("pubs", []):
+                if 1 + 2 + 2 + len(t) // 2 + (2 if q else 0) + len(p) // 2 > LIM:
+                    break
+                small_before.append((q, t, p))
+            if got[:len(small_before)] != small_before:
+                fs.append(F.Finding("publish-delivery", "packets that fit the receive buffer were not all delivered before the oversized one: "
+                                    "%d of %d" % (len(got), len(small_before))))
         for op, g in zip(case.ops, raw):
             if op.startswith("unpack "):
                 b = bytes.fromhex(op.split()[1]) if op.split()[1] != "-" else b""
